@@ -650,3 +650,217 @@ Proof.
   destruct (fx_assign_check fx && assign_refused s assign); auto.
   unfold new_uuid. simpl. discriminate.
 Qed.
+
+(* ------------------------------------------------------------------ merge: the repo *)
+
+Lemma link_notin cv vs (m : gmap N node) w : w ∉ vs -> link_children cv vs m !! w = m !! w.
+Proof.
+  unfold link_children. revert m. induction vs as [|a vs IH]; intros m H; simpl; auto.
+  apply not_elem_of_cons in H as [Na H]. rewrite IH by auto. now rewrite lookup_alter_ne by auto.
+Qed.
+
+Lemma link_in cv vs (m : gmap N node) w : NoDup vs -> w ∈ vs ->
+  link_children cv vs m !! w = add_child cv <$> m !! w.
+Proof.
+  unfold link_children. revert m. induction vs as [|a vs IH]; intros m ND H; simpl; [inversion H|].
+  apply NoDup_cons in ND as [Na ND]. apply elem_of_cons in H as [->|H].
+  - fold (link_children cv vs (alter (add_child cv) a m)). rewrite link_notin by auto. now rewrite lookup_alter.
+  - rewrite IH by auto. rewrite lookup_alter_ne; auto. intros ->. contradiction.
+Qed.
+
+Lemma validate_parents_spec s r ps vs : validate_parents s r ps = Some vs ->
+  length vs = length ps /\
+  Forall2 (fun p v => st_u2v s !! p = Some v /\ exists n, r_nodes r !! v = Some n /\ n_locked n = true) ps vs.
+Proof.
+  revert vs. induction ps as [|p ps IH]; intros vs H; simpl in H.
+  - injection H as <-. split; [reflexivity|constructor].
+  - destruct (st_u2v s !! p) as [v|] eqn:Eu; [|discriminate].
+    destruct (r_nodes r !! v) as [n|] eqn:En; [|discriminate].
+    destruct (n_locked n) eqn:El; [|discriminate].
+    destruct (validate_parents s r ps) as [vs'|]; [|discriminate]. injection H as <-.
+    destruct (IH vs' eq_refl) as [L F]. split; [simpl; congruence|]. constructor; eauto.
+Qed.
+
+Section MergeRepo.
+Variables (r : repo) (cv : N) (vs : list N) (cu : string).
+Hypothesis W : repo_wf r.
+Hypothesis Hlt : forall w x, r_nodes r !! w = Some x -> (w < cv)%N.
+Hypothesis Hvs : forall v, v ∈ vs -> exists n, r_nodes r !! v = Some n /\ n_locked n = true.
+Hypothesis Hnd : NoDup vs.
+Hypothesis Hlen : (2 <= length vs)%nat.
+
+Let child := mkNode cu vs [] "" false.
+Let nodes' := link_children cv vs (<[cv := child]> (r_nodes r)).
+Let r' := upd_nodes (fun m => link_children cv vs (<[cv := child]> m)) r.
+
+Lemma mg_cv_notin : cv ∉ vs.
+Proof using All. intros H. destruct (Hvs cv H) as (n & Hn & _). apply Hlt in Hn. lia. Qed.
+
+Lemma mg_child : nodes' !! cv = Some child.
+Proof using All. unfold nodes'. rewrite link_notin by apply mg_cv_notin. now rewrite lookup_insert. Qed.
+
+Lemma mg_old w x : nodes' !! w = Some x -> w <> cv ->
+  exists x0, r_nodes r !! w = Some x0 /\ n_uuid x = n_uuid x0 /\ n_parents x = n_parents x0 /\
+             n_branch x = n_branch x0 /\ n_locked x = n_locked x0 /\
+             ((w ∉ vs /\ x = x0) \/ (w ∈ vs /\ n_children x = (n_children x0 ++ [cv])%list)).
+Proof using All.
+  intros H Ne. unfold nodes' in H. destruct (decide (w ∈ vs)) as [Hin|Hout].
+  - rewrite link_in, lookup_insert_ne in H by auto. destruct (r_nodes r !! w) as [x0|]; [|discriminate].
+    injection H as <-. exists x0. simpl. repeat split; auto.
+  - rewrite link_notin, lookup_insert_ne in H by auto. exists x. repeat split; auto.
+Qed.
+
+Lemma mg_fwd w x0 : r_nodes r !! w = Some x0 ->
+  exists x, nodes' !! w = Some x /\ n_uuid x = n_uuid x0 /\ n_parents x = n_parents x0 /\
+            n_branch x = n_branch x0 /\ n_locked x = n_locked x0 /\
+            (forall c, c ∈ n_children x0 -> c ∈ n_children x) /\ (w ∈ vs -> cv ∈ n_children x).
+Proof using All.
+  intros H. pose proof (Hlt _ _ H) as L. assert (Ne : w <> cv) by lia.
+  unfold nodes'. destruct (decide (w ∈ vs)) as [Hin|Hout].
+  - rewrite link_in, lookup_insert_ne, H by auto. simpl. exists (add_child cv x0). simpl.
+    repeat split; auto; intros; apply elem_of_app; auto. right. now apply elem_of_list_singleton.
+  - rewrite link_notin, lookup_insert_ne, H by auto. exists x0. repeat split; auto. contradiction.
+Qed.
+
+Lemma mg_key_ne c x : r_nodes r !! c = Some x -> c <> cv.
+Proof using All. intros H ->. apply Hlt in H. lia. Qed.
+
+Lemma wf_merge : repo_wf r'.
+Proof using All.
+  pose proof mg_cv_notin as Ncv.
+  assert (Hvs_ne : vs <> []) by (destruct vs; simpl in Hlen; [lia|discriminate]).
+  constructor; unfold r'; simpl; fold nodes'.
+  - destruct (wf_root r W) as (n0 & H0 & U0 & P0).
+    destruct (mg_fwd _ _ H0) as (x & Hx & A & B & _). exists x. repeat split; congruence.
+  - intros w x Hx P. destruct (decide (w = cv)) as [->|Ne].
+    + rewrite mg_child in Hx. injection Hx as <-. simpl in P. contradiction.
+    + destruct (mg_old w x Hx Ne) as (x0 & H0 & _ & B & _). apply (wf_single_root r W w x0 H0). congruence.
+  - intros w x p Hx Hp. destruct (decide (w = cv)) as [->|Ne].
+    + rewrite mg_child in Hx. injection Hx as <-. simpl in Hp.
+      destruct (Hvs p Hp) as (pn & Hpn & Lk). split; [apply (Hlt _ _ Hpn)|].
+      destruct (mg_fwd _ _ Hpn) as (pn' & Hpn' & _ & _ & _ & L' & _ & C'). exists pn'. rewrite L'. auto.
+    + destruct (mg_old w x Hx Ne) as (x0 & H0 & _ & B & _). rewrite B in Hp.
+      destruct (wf_parents r W w x0 p H0 Hp) as (Lt & pn & Hpn & Lk & Ch). split; auto.
+      destruct (mg_fwd _ _ Hpn) as (pn' & Hpn' & _ & _ & _ & L' & C' & _). exists pn'. rewrite L'. auto.
+  - intros w x c Hx Hc. destruct (decide (w = cv)) as [->|Ne].
+    + rewrite mg_child in Hx. injection Hx as <-. simpl in Hc. inversion Hc.
+    + destruct (mg_old w x Hx Ne) as (x0 & H0 & _ & _ & _ & _ & [[Nv ->]|(Hin & Ec)]).
+      * destruct (wf_children r W w x0 c H0 Hc) as (cn & Hcn & Pc).
+        destruct (mg_fwd _ _ Hcn) as (cn' & Hcn' & _ & B' & _). exists cn'. rewrite B'. auto.
+      * rewrite Ec in Hc. apply elem_of_app in Hc as [Hc|Hc].
+        -- destruct (wf_children r W w x0 c H0 Hc) as (cn & Hcn & Pc).
+           destruct (mg_fwd _ _ Hcn) as (cn' & Hcn' & _ & B' & _). exists cn'. rewrite B'. auto.
+        -- apply elem_of_list_singleton in Hc as ->. exists child. rewrite mg_child. auto.
+  - intros w x Hx. destruct (decide (w = cv)) as [->|Ne].
+    + rewrite mg_child in Hx. injection Hx as <-. simpl. split; [exact Hnd|apply NoDup_nil_2].
+    + destruct (mg_old w x Hx Ne) as (x0 & H0 & _ & B & _ & _ & [[Nv ->]|(Hin & Ec)]).
+      * apply (wf_nodup r W w x0 H0).
+      * destruct (wf_nodup r W w x0 H0) as [ND1 ND2]. rewrite B, Ec. split; auto.
+        apply NoDup_app. repeat split; auto; [|apply NoDup_singleton].
+        intros c Hc Hc'. apply elem_of_list_singleton in Hc' as ->.
+        destruct (wf_children r W w x0 cv H0 Hc) as (cn & Hcn & _). now apply mg_key_ne in Hcn.
+  - intros w x Hx Hb. destruct (decide (w = cv)) as [->|Ne].
+    + rewrite mg_child in Hx. injection Hx as <-. simpl in Hb. contradiction.
+    + destruct (mg_old w x Hx Ne) as (x0 & H0 & _ & B & C & _). rewrite B.
+      apply (wf_named_one_parent r W w x0 H0). congruence.
+  - intros w x c1 c2 n1 n2 Hx Hc1 Hc2 H1 H2 P1 P2 Eb.
+    destruct (decide (w = cv)) as [->|Ne].
+    { rewrite mg_child in Hx. injection Hx as <-. simpl in Hc1. inversion Hc1. }
+    (* the merge child has at least two parents: it is nobody's non-merge child *)
+    assert (Hnot : forall c nc, nodes' !! c = Some nc -> n_parents nc = [w] -> c <> cv).
+    { intros c nc Hc P ->. rewrite mg_child in Hc. injection Hc as <-. simpl in P. rewrite P in Hlen. simpl in Hlen. lia. }
+    pose proof (Hnot c1 n1 H1 P1) as N1. pose proof (Hnot c2 n2 H2 P2) as N2.
+    destruct (mg_old c1 n1 H1 N1) as (m1 & A1 & _ & B1 & C1 & _).
+    destruct (mg_old c2 n2 H2 N2) as (m2 & A2 & _ & B2 & C2 & _).
+    destruct (mg_old w x Hx Ne) as (x0 & H0 & _ & _ & _ & _ & Hch).
+    assert (Hold : forall c, c ∈ n_children x -> c <> cv -> c ∈ n_children x0).
+    { intros c Hc Nc. destruct Hch as [[_ ->]|[_ Ec]]; auto. rewrite Ec in Hc.
+      apply elem_of_app in Hc as [Hc|Hc]; auto. apply elem_of_list_singleton in Hc. contradiction. }
+    apply (wf_linear r W w x0 c1 c2 m1 m2 H0); auto; congruence.
+  - intros w x Hx. destruct (decide (w = cv)) as [->|Ne].
+    + rewrite mg_child in Hx. injection Hx as <-. simpl. discriminate.
+    + destruct (mg_old w x Hx Ne) as (x0 & H0 & _ & _ & C & _). rewrite C. apply (wf_no_master r W w x0 H0).
+  - apply (wf_root_len r W).
+Qed.
+
+Lemma mg_uuids_kept : uuids_kept cv (r_nodes r) (r_nodes r').
+Proof using All.
+  intros w Ne. unfold r'; simpl; fold nodes'. destruct (r_nodes r !! w) as [x0|] eqn:E.
+  - destruct (mg_fwd _ _ E) as (x & Hx & A & _). rewrite Hx. now constructor.
+  - destruct (nodes' !! w) as [x|] eqn:E'; [|constructor].
+    destruct (mg_old w x E' Ne) as (x0 & H0 & _). congruence.
+Qed.
+
+End MergeRepo.
+
+Lemma Forall2_elem_r {A B} (P : A -> B -> Prop) l k y : Forall2 P l k -> y ∈ k -> exists x, x ∈ l /\ P x y.
+Proof.
+  induction 1 as [|a b l k Hab F IH]; intros Hy; [inversion Hy|].
+  apply elem_of_cons in Hy as [->|Hy].
+  - exists a. split; auto. apply elem_of_cons. auto.
+  - destruct (IH Hy) as (x & Hx & Px). exists x. split; auto. apply elem_of_cons. auto.
+Qed.
+
+(* ------------------------------------------------------------------ merge: the state *)
+
+Lemma inv_merge s ps fresh :
+  RepoInv s -> fresh <> "" -> st_u2v s !! fresh = None -> RepoInv (fst (do_merge repaired s ps fresh)).
+Proof.
+  intros I Hne Hcu. unfold do_merge.
+  destruct ps as [|p0 [|p1 rest]]; try exact I.
+  destruct (st_repo_of s !! p0) as [i|] eqn:Hi; [|exact I].
+  simpl fx_merge_validate. cbv iota.
+  destruct (st_repos s !! i) as [r|] eqn:Hr; [|exact I].
+  destruct (validate_parents s r (p0 :: p1 :: rest)) as [vs|] eqn:Ev; [|exact I].
+  simpl fx_merge_distinct. rewrite andb_true_l.
+  destruct (bool_decide (NoDup vs)) eqn:End; [|exact I]. simpl negb. cbv iota.
+  apply bool_decide_eq_true in End.
+  destruct (inv_repo_of s I p0 i Hi) as (R & r0 & v0 & n0 & HR & Hr0 & _).
+  rewrite Hr in Hr0. injection Hr0 as <-.
+  destruct (inv_root_eq s i R r I HR Hr) as [ER W].
+  destruct (validate_parents_spec _ _ _ _ Ev) as [Hlen F2].
+  assert (Hvs : forall v, v ∈ vs -> exists n, r_nodes r !! v = Some n /\ n_locked n = true).
+  { intros v Hv. destruct (Forall2_elem_r _ _ _ _ F2 Hv) as (p & _ & _ & Hn). exact Hn. }
+  assert (Hlt : forall w x, r_nodes r !! w = Some x -> (w < st_next_v s)%N).
+  { intros w x Hx. destruct (inv_nodes s I i R r w x HR Hr Hx) as [Hv _]. apply (inv_next_v s I w _ Hv). }
+  assert (Hl2 : (2 <= length vs)%nat) by (rewrite Hlen; simpl; lia).
+  unfold new_uuid. simpl.
+  set (cv := st_next_v s). set (child := mkNode fresh vs [] "" false).
+  set (r' := upd_nodes (fun m => link_children cv vs (<[cv := child]> m)) r).
+  pose proof (wf_merge r cv vs fresh W Hlt Hvs End Hl2) as W'.
+  pose proof (mg_child r cv vs fresh W Hlt Hvs End Hl2) as MC.
+  pose proof (mg_old r cv vs fresh W Hlt Hvs End Hl2) as MO.
+  pose proof (mg_fwd r cv vs fresh W Hlt Hvs End Hl2) as MF.
+  fold child in MC, MO, MF. fold child in W'. fold r' in W'.
+  eapply (inv_add_node s _ i R r r' fresh child); eauto; simpl; fold cv.
+  - now apply alter_as_insert.
+  - apply (mg_uuids_kept r cv vs fresh W Hlt Hvs End Hl2).
+  - intros j Rj rj w x HRj Hrj Hx Hb L.
+    assert (Hrj' : (j = i /\ rj = r') \/ (j <> i /\ st_repos s !! j = Some rj)).
+    { revert Hrj. destruct (decide (j = i)) as [->|Nj].
+      - rewrite lookup_alter, Hr. simpl. intros [= <-]. auto.
+      - rewrite lookup_alter_ne by auto. auto. }
+    destruct Hrj' as [[-> ->]|[Nj Hrj']].
+    + change (r_root r') with (r_root r).
+      change (r_nodes r') with (link_children cv vs (<[cv := child]> (r_nodes r))) in Hx.
+      destruct (decide (w = cv)) as [Ew|Nw].
+      * rewrite Ew in Hx. rewrite MC in Hx. injection Hx as <-. simpl in Hb. contradiction.
+      * destruct (MO w x Hx Nw) as (x0 & H0 & EU & EP & EB & EL & Hch).
+        rewrite EU, EB. apply (inv_heads s I i R r w x0 HR Hr H0); [congruence|].
+        intros c cn Hc Hcn.
+        destruct (MF c cn Hcn) as (cn' & Hcn' & _ & _ & EB' & _).
+        rewrite <- EB, <- EB'. apply (L c cn'); auto.
+        destruct Hch as [[_ ->]|[_ ->]]; auto. apply elem_of_app. auto.
+    + apply (inv_heads s I j Rj rj w x HRj Hrj' Hx Hb L).
+Qed.
+
+Lemma merge_frame s ps fresh :
+  is_done (snd (do_merge repaired s ps fresh)) = false -> fst (do_merge repaired s ps fresh) = s.
+Proof.
+  unfold do_merge. destruct ps as [|p0 [|p1 rest]]; auto.
+  destruct (st_repo_of s !! p0) as [i|]; auto. simpl fx_merge_validate. cbv iota.
+  destruct (st_repos s !! i) as [r|]; auto.
+  destruct (validate_parents s r (p0 :: p1 :: rest)) as [vs|]; auto.
+  destruct (fx_merge_distinct repaired && negb (bool_decide (NoDup vs))); auto.
+  unfold new_uuid. simpl. discriminate.
+Qed.
